@@ -279,3 +279,27 @@ Print Assumptions C09_wheel_after_unlocks.
 Theorem C09_wheel_tiny_panics : forall T, (T < c_rtimer_accuracy)%N -> rt_panics T = true.
 Proof. exact TimeWheelProofs.rt_after_tiny_panics. Qed.
 Print Assumptions C09_wheel_tiny_panics.
+(* ---- the CURRENT source of ServantProxy.TarsInvoke: the effective timeout ----
+   regenerated from tars/servant.go on every run (Xlate/TarsInvokeEquiv.v): the time left to the caller's deadline if the
+   context has one, else the per-call timeout of current.SetClientTimeout, else the proxy's timeout; told to the server in
+   ITimeout; a timer (context.WithTimeout) of exactly that duration is armed when - and only when - the caller brought no
+   deadline, whatever the sign of the timeout. *)
+From TarsV Require Import Xlate.GoSem Gen.Translated Xlate.TarsInvokeEquiv.
+Theorem C09_source_effective_timeout : forall req proxy_ms (has_dl : bool) until ct out,
+  int31 proxy_ms -> int31 (snd (fst ct)) -> int63 until ->
+  go_requestf_RequestPacket_ITimeout req = wrapS 32 proxy_ms ->
+  let dl := if has_dl then Some until else None in
+  let t := eff_timeout proxy_ms (per_call ct) dl in
+  tr_TarsInvoke_timeout req proxy_ms has_dl until ct out =
+  Next ((out ++ (if has_dl then [] else [t]))%list, t, with_itimeout req (eff_itimeout proxy_ms (per_call ct) dl)).
+Proof. exact TarsInvokeEquiv.tr_TarsInvoke_timeout_equiv. Qed.
+Print Assumptions C09_source_effective_timeout.
+(* ---- the CURRENT source of AdapterProxy.Recv: the hand-over of a late reply is bounded by conf.ReadTimeout ----
+   (Xlate/AdapterRecvEquiv.v) whenever the translated statements arm a timer, its duration is exactly conf.ReadTimeout and the
+   table has an entry under the packet's id *)
+From TarsV Require Import Conc.Pending Xlate.AdapterRecvEquiv.
+Theorem C09_source_recv_timer : forall p t ptype rt sel d, (ptype =? k_basef_TARSONEWAY)%Z = p_oneway p ->
+  forall o, out_of (tr_adapter_Recv rt (match lookup (p_id p) t with Some _ => true | None => false end) ptype (p_id p) sel []) = Some o ->
+  In (3, d)%Z o -> d = rt /\ exists ch, lookup (p_id p) t = Some ch /\ p_id p <> 0%Z.
+Proof. exact AdapterRecvEquiv.adapter_Recv_timer. Qed.
+Print Assumptions C09_source_recv_timer.
